@@ -27,7 +27,7 @@ Step ==
                /\ (bl0 <= 64 => SubSeq(r.buf, 1, bl0) = b0)
                /\ (r.count <= MaxUnchecked => r.cells = Append(c0, Cell(r.t, r.v)))
                /\ cells' = IF r.count <= MaxUnchecked THEN r.cells ELSE c0
-          [] r.op \in {"mismatch", "nested_fail", "toolarge"} ->
+          [] r.op \in {"mismatch", "nested_fail", "toolarge", "late_typeck"} ->
                /\ r.ok = 0                                            \* refused
                /\ r.count = n0 /\ r.buf_len = bl0 /\ r.buf = b0       \* and nothing changed
                /\ (r.count <= MaxUnchecked => r.cells = c0)
